@@ -79,6 +79,10 @@ def build(spec, fs_dir="/simfs/src"):
     path = fs_dir + "/" + name
     try:
         c.save(path)
+        if via == "cif" and spec.get("quirks"):
+            from pathlib import Path
+
+            Path(path).write_text(apply_cif_quirks(Path(path).read_text(), spec))
         loaded = Crystal.load(path)
     except Exception as e:  # a writer/reader limitation: C10's business
         raise SourceError("%s round trip failed: %s: %s" % (via, type(e).__name__, e))
@@ -87,11 +91,51 @@ def build(spec, fs_dir="/simfs/src"):
     return loaded
 
 
+CIF_QUIRKS = ["occ_unknown", "no_type_symbol", "symop_new_key", "it_number_only", "esd"]
+
+
+def apply_cif_quirks(text, spec):
+    """Unusual-but-legal spellings of the same CIF (other branches of the
+    reader; structures on which some queries legitimately raise)."""
+    import re
+
+    from chmpy.fmt.cif import Cif
+
+    cif = Cif.from_string(text)
+    (name, data), = cif.data.items()
+    data = dict(data)
+    quirks = spec["quirks"]
+    if "occ_unknown" in quirks and "atom_site_occupancy" in data:
+        occ = list(data["atom_site_occupancy"])
+        occ[len(occ) // 2] = "?"
+        data["atom_site_occupancy"] = occ
+    if "no_type_symbol" in quirks:
+        data.pop("atom_site_type_symbol", None)
+    if "symop_new_key" in quirks and "symmetry_equiv_pos_as_xyz" in data:
+        data = {
+            {"symmetry_equiv_pos_as_xyz": "space_group_symop_operation_xyz",
+             "symmetry_equiv_pos_site_id": "space_group_symop_id"}.get(k, k): v
+            for k, v in data.items()
+        }  # fmt: skip
+    if "it_number_only" in quirks and spec["sg"][1] in ("", "H"):
+        for k in ("symmetry_equiv_pos_as_xyz", "symmetry_equiv_pos_site_id",
+                  "space_group_symop_operation_xyz", "space_group_symop_id"):
+            data.pop(k, None)
+        data = dict([("space_group_IT_number", int(spec["sg"][0]))] + list(data.items()))
+    out = Cif({name: data}).to_string()
+    if "esd" in quirks:
+        out = re.sub(r"^(_cell_length_[abc] \S+)$", r"\1(3)", out, flags=re.M)
+    return out
+
+
 def source_class(spec):
     if spec["kind"] == "file":
         return "file:" + spec["name"]
     rl = "R" if spec["sg"][0] in RGROUPS else "N"
-    return "%s/%s/%s" % (spec.get("content", "synthetic"), rl, spec.get("via") or "mem")
+    via = spec.get("via") or "mem"
+    if spec.get("quirks"):
+        via += "+quirks"
+    return "%s/%s/%s" % (spec.get("content", "synthetic"), rl, via)
 
 
 # ---------------------------------------------------------------- generation
@@ -184,7 +228,11 @@ def gen_spec(rng, kind=None):
         if rng.random() < 0.5:
             occupation = [rng.choice([1.0, 0.5, 0.25]) for _ in range(k)]
     via = rng.choice([None, None, "cif", "cif", "res", "poscar"])
+    quirks = None
+    if via == "cif" and rng.random() < 0.3:
+        quirks = rng.sample(CIF_QUIRKS, rng.randint(1, 2))
     return {
+        "quirks": quirks,
         "kind": "synthetic",
         "content": kind,
         "sg": [int(number), choice],
@@ -200,8 +248,13 @@ def simplify_candidates(spec):
     """Smaller variants of a synthetic source for the minimiser."""
     if spec["kind"] != "synthetic":
         return
+    if spec.get("quirks"):
+        yield dict(spec, quirks=None)
+        for q in spec["quirks"]:
+            if len(spec["quirks"]) > 1:
+                yield dict(spec, quirks=[x for x in spec["quirks"] if x != q])
     if spec.get("via"):
-        yield dict(spec, via=None)
+        yield dict(spec, via=None, quirks=None)
     if spec.get("occupation") is not None:
         yield dict(spec, occupation=None)
     n = len(spec["elements"])
